@@ -61,7 +61,7 @@ type LetDecl struct {
 }
 
 type CallSiteAnn struct {
-	Callee string
+	Callee  string
 	Asserts []*Clause
 }
 
@@ -84,38 +84,39 @@ type FuncContract struct {
 }
 
 type ExternDecl struct {
-	Name    string // qualified, e.g. strings.HasPrefix or (*zap.Logger).Info
-	Kind    string // havoc | fn | noreturn
-	Params  []string
-	Ensures []*Clause
+	Name     string // qualified, e.g. strings.HasPrefix or (*zap.Logger).Info
+	Kind     string // havoc | fn | noreturn
+	Params   []string
+	Ensures  []*Clause
 	Requires []*Clause
 	Modifies []Expr
 }
 
 type Lemma struct {
-	Name string
-	Tags []string
-	E    Expr
-	Src  string
+	Canary bool // must NOT be provable (vacuity guard for axioms and predicates)
+	Name   string
+	Tags   []string
+	E      Expr
+	Src    string
 }
 
 type ContractFile struct {
-	Pkg     string
-	Ghosts  []GhostDecl
-	OnSends []*OnSend
-	Preds   map[string]*PredDecl
-	Funcs   map[string]*FuncContract
-	FuncOrder []string
-	Externs map[string]*ExternDecl
-	Lemmas  []*Lemma
-	Axioms  []*Clause
+	Pkg         string
+	Ghosts      []GhostDecl
+	OnSends     []*OnSend
+	Preds       map[string]*PredDecl
+	Funcs       map[string]*FuncContract
+	FuncOrder   []string
+	Externs     map[string]*ExternDecl
+	Lemmas      []*Lemma
+	Axioms      []*Clause
 	SendAsserts map[string][]*Clause // channel key -> assertions at each send
 }
 
 var directiveKw = map[string]bool{
 	"ghost": true, "on": true, "pred": true, "spec": true, "func": true, "requires": true, "ensures": true,
 	"modifies": true, "let": true, "safety": true, "loop": true, "assume": true, "lemma": true,
-	"extern": true, "axiom": true, "trusted": true, "sendassert": true,
+	"extern": true, "axiom": true, "canary": true, "trusted": true, "sendassert": true,
 }
 
 var tagRe = regexp.MustCompile(`^\[([A-Za-z0-9_, ]*)\]\s*`)
@@ -438,7 +439,7 @@ func parseContractFile(path, pkg string, cf *ContractFile) error {
 				return err
 			}
 			cur.EnvAssume = append(cur.EnvAssume, c)
-		case "lemma":
+		case "lemma", "canary":
 			k := strings.Index(rest, ":")
 			// name [tags]: expr ; the first ':' not part of '::' or ':='
 			for k >= 0 && k+1 < len(rest) && (rest[k+1] == ':' || rest[k+1] == '=') {
@@ -459,7 +460,7 @@ func parseContractFile(path, pkg string, cf *ContractFile) error {
 			if err != nil {
 				return fail(err)
 			}
-			cf.Lemmas = append(cf.Lemmas, &Lemma{Name: hf[0], Tags: tags, E: e, Src: strings.TrimSpace(rest[k+1:])})
+			cf.Lemmas = append(cf.Lemmas, &Lemma{Name: hf[0], Tags: tags, E: e, Src: strings.TrimSpace(rest[k+1:]), Canary: kw == "canary"})
 			cur = nil
 		case "extern":
 			// extern NAME kind [ensures EXPR]   params are p0,p1,... result
